@@ -602,5 +602,7 @@ class MailboxSet(MailboxSetInterface[MailboxData]):
                 raise KeyError(before) from exc
             try:
                 self._layout.rename_folder(before, after, self.delimiter)
-            except (FileExistsError, FileNotFoundError) as exc:
+            except OSError as exc:
+                # the destination exists, a superior folder is missing, or
+                # the filesystem refuses (e.g. a folder into its own subtree)
                 raise ValueError(after) from exc
